@@ -756,7 +756,7 @@ theorem meta_beq_cdag : (PinType.metaT == PinType.clusterDagT) = false := by dec
 
 theorem sharded_book (c : Cfg) (stream : List Blk) (o : Out) (cl rb rp ri : Bool) (hs : c.shard = true)
     (hcons : consistent stream = true) (h : ShOutOk c stream o) :
-    (bookkeeping c (o.view stream cl rb rp ri)).all (·.2) = true := by
+    (pinClauses c (o.view stream cl rb rp ri)).all (·.2) = true := by
   have hshards := h.shards
   have hall : ∀ r ∈ o.shards, ShardOk c r := fun r hr => (hshards r hr).1
   -- the clauses that speak about every accepted shard pin, whatever the outcome
@@ -800,13 +800,13 @@ theorem sharded_book (c : Cfg) (stream : List Blk) (o : Out) (cl rb rp ri : Bool
       simp only [shardsPartition, allShardBlocks, Out.view, shardView_blocks, hpart]
       exact partition_ok stream
     have hvok : (o.view stream cl rb rp ri).ok = true := by simp [Out.view, hok]
-    simp [bookkeeping, hvok, hs, hentries, hmeta, hlists, hpartition, hlimit, hdepth, hallocs]
+    simp [pinClauses, hvok, hs, hentries, hmeta, hlists, hpartition, hlimit, hdepth, hallocs]
   · have hno : noRootPin (o.view stream cl rb rp ri) = true := by
       simp only [noRootPin, Out.view, List.all_eq_true, Bool.and_eq_true, bne_iff_ne, ne_eq]
       intro p hp
       rcases h.fail hok p hp with ht | ht <;> simp [ht]
     have hvok : (o.view stream cl rb rp ri).ok = false := by simpa [Out.view] using hok
-    simp [bookkeeping, hvok, hs, hno, hlimit, hdepth, hallocs]
+    simp [pinClauses, hvok, hs, hno, hlimit, hdepth, hallocs]
 
 
 /-! ### not sharded -/
@@ -846,21 +846,21 @@ theorem sinv_singleAddAll (c : Cfg) (hwf : c.allocs.all nodupNat = true) :
 
 theorem single_book (c : Cfg) (stream : List Blk) (fin : Option Nat) (cl rb rp ri : Bool) (hs : c.shard = false)
     (hwf : c.allocs.all nodupNat = true) :
-    (bookkeeping c ((runSingle c stream fin).view stream cl rb rp ri)).all (·.2) = true := by
+    (pinClauses c ((runSingle c stream fin).view stream cl rb rp ri)).all (·.2) = true := by
   have hinv := sinv_singleAddAll c hwf stream SSt.init 0 [] ⟨rfl, by simp [SSt.init]⟩
   unfold runSingle
   rcases h : singleAddAll c SSt.init stream 0 [] with ⟨s, failed⟩
   rw [h] at hinv; simp only at hinv ⊢
   cases fin with
   | none =>
-    simp [bookkeeping, Out.view, hs, noRootPin, hinv.pins]
+    simp [pinClauses, Out.view, hs, noRootPin, hinv.pins]
   | some r =>
     simp only
     unfold singleFinalize
     have hp := pinCall_pins c s.env (rootPin c r (s.dests.getD []))
     rcases hc : pinCall c s.env (rootPin c r (s.dests.getD [])) with ⟨e, _ | _⟩
     · rw [hc] at hp; simp only at hp
-      simp [bookkeeping, Out.view, hs, noRootPin, hinv.pins, hp]
+      simp [pinClauses, Out.view, hs, noRootPin, hinv.pins, hp]
     · rw [hc] at hp; simp only at hp
       have hnd : nodupNat (s.dests.getD []) = true := by
         cases hd : s.dests with
@@ -872,7 +872,7 @@ theorem single_book (c : Cfg) (stream : List Blk) (fin : Option Nat) (cl rb rp r
           unfold sentOf; cases s.dests <;> simp [hl, sortDedup]
         rw [this]
         exact allocsAreDests_ok c.opts _ _ hnd (by simp [sentPin_allocs, rootPin, pinWithOpts, workOpts])
-      simp [bookkeeping, Out.view, hs, hinv.pins, hp, singleExactlyRoot, singleRootOptions, singleRootAllocs,
+      simp [pinClauses, Out.view, hs, hinv.pins, hp, singleExactlyRoot, singleRootOptions, singleRootAllocs,
         sentPin_cid, sentPin_type, sentPin_opts, sentPin_depth, rootPin, pinWithOpts, workOpts, optsAsRequested, modeToDepth]
       by_cases hl : c.local = true
       · exact Or.inl hl
